@@ -87,6 +87,15 @@ func pickDirs(r *rand.Rand, t gen.Tree) []string {
 	n := 1 + r.Intn(3)
 	seen := map[string]bool{}
 	var D []string
+	var deep []string
+	for _, d := range ds {
+		if strings.Count(d, "/") >= 2 {
+			deep = append(deep, d)
+		}
+	}
+	if len(deep) > 0 && r.Intn(4) == 0 { // one deep directory alone: nothing else un-skips its ancestors
+		return []string{deep[r.Intn(len(deep))]}
+	}
 	for len(D) < n && len(seen) < len(ds) {
 		var d string
 		switch {
@@ -118,6 +127,27 @@ func pickDirs(r *rand.Rand, t gen.Tree) []string {
 		D = append(D, d)
 	}
 	return D
+}
+
+// addDeepCluster plants, in most commits, a directory chain of depth 3-4 whose every level has a tracked sibling
+// that sorts BEFORE the next directory of the chain (so the index lists an out-of-set entry first at each level):
+//
+//	deep/b  deep/m/a  deep/m/k/f1  deep/m/k/sub/f2  deep/m/z  deep/q/r/s/t
+func addDeepCluster(h *gen.History, r *rand.Rand) {
+	for i := range h.Commits {
+		if r.Intn(6) == 0 {
+			continue
+		}
+		t := h.Commits[i].Tree
+		t["deep/b"] = gen.File{Mode: "100644", Content: []byte("early sibling at level 1\n")}
+		t["deep/m/a"] = gen.File{Mode: "100644", Content: []byte(fmt.Sprintf("early sibling at level 2, variant %d\n", i%2))}
+		t["deep/m/k/f1"] = gen.File{Mode: "100644", Content: []byte(fmt.Sprintf("selected leaf, variant %d\n", i%3))}
+		t["deep/m/k/sub/f2"] = gen.File{Mode: "100755", Content: []byte("deeper leaf\n")}
+		t["deep/m/z"] = gen.File{Mode: "100644", Content: []byte("late sibling\n")}
+		if r.Intn(2) == 0 {
+			t["deep/q/r/s/t"] = gen.File{Mode: "100644", Content: []byte("second chain\n")}
+		}
+	}
 }
 
 func nested(D []string) bool {
@@ -160,7 +190,8 @@ func run(c *vf.Ctx) {
 		}
 		r := c.Rand("hist", hi)
 		h := gen.RandomHistory(r, gen.HistOpts{N: 5 + r.Intn(5), MergeProb: 0.2, Files: 10 + r.Intn(12), Branches: 3,
-			Path: gen.PathOpts{Depth: 3, Symlinks: true, Exec: true}})
+			Path: gen.PathOpts{Depth: 3 + hi%2, Symlinks: true, Exec: true}})
+		addDeepCluster(h, r)
 		root := c.TempDir(fmt.Sprintf("h%d", hi))
 		defer os.RemoveAll(root)
 		base, err := twin.NewBase(g, filepath.Join(root, "base"), h)
@@ -204,9 +235,18 @@ func run(c *vf.Ctx) {
 			}
 			headBranch := base.Branches[0] // "" when detached
 			var pre map[string]preEntry
-			switch cr.Intn(3) {
+			switch cr.Intn(4) {
 			case 0:
 				rec.Start = "full"
+				pre = preFrom(baseEnts, B)
+			case 1: // every tracked file deleted from disk, index kept: forced operations have to write everything
+				rec.Start = "empty-worktree-index-present"
+				ents, _ := os.ReadDir(B)
+				for _, e := range ents {
+					if e.Name() != ".git" {
+						os.RemoveAll(filepath.Join(B, e.Name()))
+					}
+				}
 				pre = preFrom(baseEnts, B)
 			default:
 				rec.Start = "nocheckout"
@@ -320,6 +360,9 @@ func run(c *vf.Ctx) {
 					break
 				}
 				c.Count("ops_succeeded", 1)
+				if maxDepth(op.Dirs) >= 3 && rec.Start != "full" && step == 0 {
+					c.Count("ops_materialising_a_depth3plus_selection_from_an_empty_worktree", 1)
+				}
 				if anySib {
 					c.Count("ops_with_prefix_sibling", 1)
 				}
@@ -425,6 +468,7 @@ func run(c *vf.Ctx) {
 	c.Extra("failures_by_key_and_op", failByOp)
 	c.Floor("successful sparse operations", c.Counter("ops_succeeded"), c.N(80, 1000))
 	c.Floor("operations whose selection is a string prefix of a sibling name", c.Counter("ops_with_prefix_sibling"), c.N(25, 250))
+	c.Floor("operations materialising a selection of depth >= 3 from an empty worktree", c.Counter("ops_materialising_a_depth3plus_selection_from_an_empty_worktree"), c.N(8, 100))
 	c.Floor("operations switching an earlier selection", c.Counter("ops_switching_selection"), c.N(10, 200))
 	c.Floor("model partitions confirmed by real git sparse checkout", c.Counter("git_confirmations"), c.N(12, 80))
 	c.Floor("operation kinds", c.SeenCount("op_kinds"), len(opKinds))
